@@ -106,6 +106,12 @@ Record seal := mkSeal {
   s_iv : ivsrc             (* CBC: where the explicit-IV block came from *)
 }.
 
+(* Which events touch w_seq:  WActivate sets it to zero TOGETHER WITH a new key ordinal (the only reset);  WSeal under a
+   non-null cipher binds the current value into the record and then runs the increment loop;  WEarlyReadReset zeroes it
+   without a key change (the code does that) and is therefore admitted by `guardw` only under the null cipher, where the
+   number is zero anyway;  nothing else writes it.  Hence within one key activation the bound numbers are 0, 1, 2, ...
+   (c17_seq_counts, c17_seq_moves_only_by_seal); an implementation that rewinds ssl->sec.seq under an active key shows up
+   as a disagreement on the very next seal (and as a repeated nonce). *)
 Definition wstep (pidx : nat) (w : wstate) (e : wevent) : wstate * option seal :=
   match e with
   | WActivate a iv => (mkW a (S (w_key w)) iv zero_seq (w_pend w), None)
